@@ -7,7 +7,7 @@ Encodings (strings are space-separated decimal code points, so `; | # / , : ~` a
 * node   : prefix-order records `key;value;open;close;empty;last;tuple;isContainer;nchildren` joined by `|`
 * line   : `isRoot;text;suffix;whitespace;expanded#<node or ->`; a list of lines is joined by `/`
 * leaf   : `a~<repr>` | `s~<isBytes>~<chars>` | `x~<message>`
-* heap   : objects joined by `|`: `L;<leaf>` | `S;<kind>;<aux>;<ref,ref,…>` | `M;<kind>;<aux>;<leaf:ref,…>`
+* heap   : objects joined by `|`: `L;<leaf>;<isinstance tuple>` | `S;<kind>;<aux>;<ref,ref,…>` | `M;<kind>;<aux>;<leaf:ref,…>`
 * reprs  : the runtime `repr()` of the str/bytes values the model may need: `<isBytes>~<chars>~<repr>` joined by `|`
 -/
 namespace RichModel.Drv.C16
@@ -95,7 +95,7 @@ def splitList (s : String) (sep : String) : List String := if s.isEmpty then [] 
 
 def decObj (s : String) : Option HObj :=
   match s.splitOn ";" with
-  | ["L", l] => (decLeaf l).map .leaf
+  | ["L", l, t] => (decLeaf l).map (.leaf · (decBool t))
   | ["S", k, aux, items] =>
     match decSeqKind k with
     | some k => some (.seq k (decStr aux) ((splitList items ",").map decNat))
@@ -126,38 +126,60 @@ def lookup (t : ReprTable) (b : Bool) (cs : Str) : Option Str :=
 def pyReprOf (t : ReprTable) (b : Bool) (cs : Str) : Str := (lookup t b cs).getD ['?', '?']
 
 /-- the `repr()` values `to_repr` will ask for on this leaf. -/
-def leafNeeds (ms : Option Nat) : Leaf → List (Bool × Str)
+def leafNeeds (ms : Option Int) : Leaf → List (Bool × Str)
   | .str b cs => match ms with
-    | some m => if cs.length > m then [(b, cs.take m)] else [(b, cs)]
+    | some m => if (cs.length : Int) > m then [(b, sliceTo cs m)] else [(b, cs)]
     | none => [(b, cs)]
   | _ => []
 
-def heapNeeds (ms : Option Nat) (h : Heap) : List (Bool × Str) :=
+def heapNeeds (ms : Option Int) (h : Heap) : List (Bool × Str) :=
   (h.map fun o => match o with
-    | .leaf l => leafNeeds ms l
+    | .leaf l _ => leafNeeds ms l
     | .seq .. => []
     | .map _ _ items => (items.map fun kr => leafNeeds ms kr.1).flatten).flatten
 
-def covered (t : ReprTable) (ms : Option Nat) (h : Heap) : Bool :=
+def covered (t : ReprTable) (ms : Option Int) (h : Heap) : Bool :=
   (heapNeeds ms h).all fun (b, cs) => (lookup t b cs).isSome
 
 def okRefs (h : Heap) : Bool :=
   h.all fun o => match o with
-    | .leaf _ => true
+    | .leaf _ _ => true
     | .seq _ _ items => items.all (· < h.length)
     | .map _ _ items => items.all (·.2 < h.length)
 
-def withHeap (ds al heap root ml ms reprs : String) (k : TravCfg → Heap → Nat → String) : String :=
+def decOptInt (s : String) : Option Int := if s == "-" then none else s.toInt?
+def isInt (s : String) : Bool := s.toInt?.isSome
+def isOptInt (s : String) : Bool := s == "-" || isInt s
+
+/-- a lone surrogate cannot be a Lean `Char`: such requests are outside the modelled domain. -/
+def hasSurrogate (s : String) : Bool :=
+  (s.splitOn " ").any fun t => (t.splitOn "~").any fun u => (u.splitOn ";").any fun x => (x.splitOn ",").any fun y =>
+    (y.splitOn ":").any fun z => (z.splitOn "|").any fun q => match q.toNat? with
+      | some n => 0xD800 ≤ n && n ≤ 0xDFFF
+      | none => false
+
+def decOptStr (s : String) : Option Str := if s == "N" then none else some (decStr (s.drop 1).toString)
+def decOptBool (s : String) : Option Bool := if s == "N" then none else some (decBool s)
+def encOptStr : Option Str → String
+  | none => "N"
+  | some t => "S" ++ encStr t
+
+/-- decode the heap request; `k` gets pyRepr, the heap and the root. -/
+def withHeap (heap root ml ms reprs : String) (k : (Bool → Str → Str) → Heap → Nat → String) : String :=
+  if hasSurrogate heap || hasSurrogate reprs then "unmodelled" else
   match decHeap heap, decReprs reprs with
   | some h, some t =>
-    let msO := decOptNat ms
-    if ml != "-" && ml.toNat?.isNone then "unmodelled"      -- negative max_length: islice raises
-    else if ms != "-" && ms.toNat?.isNone then "unmodelled"
-    else if !(covered t msO h) || !(okRefs h) || decNat root ≥ h.length then "unmodelled"
-    else k { pyRepr := pyReprOf t, variant := ⟨decBool ds, decBool al⟩, maxLength := decOptNat ml, maxString := msO } h (decNat root)
+    if !(isOptInt ml) || !(isOptInt ms) then "bad-args"
+    else if !(covered t (decOptInt ms) h) || !(okRefs h) || decNat root ≥ h.length then "unmodelled"
+    else k (pyReprOf t) h (decNat root)
   | _, _ => "bad-args"
 
-def isNat (s : String) : Bool := s.toNat?.isSome
+def mkVariant (ds al mn : String) : Variant := ⟨decBool ds, decBool al, decBool mn⟩
+
+/-- for the repaired `expand` the root's `last` flag is unobservable (`root_last_unobservable`): it is
+masked in the traverse comparison (`maskRoot`). -/
+def encNodeMasked (maskRoot : Bool) (n : Node) : String :=
+  if maskRoot then encNode (n.setLast true) else encNode n
 
 def handlers : List (String × (List String → String)) := [
   ("pretty.tokens", fun a => match a with
@@ -172,48 +194,78 @@ def handlers : List (String × (List String → String)) := [
     | _ => "bad-args"),
   ("pretty.check_length", fun a => match a with
     | [n, start, mx] => match decNode n with
-      | some n => if isNat start && isNat mx then encBool (n.checkLength cw (decNat start) (decNat mx)) else "unmodelled"
+      | some n => if s!"{start}".toNat?.isSome && isInt mx then encBool (n.checkLength cw (decNat start) (decInt mx)) else "unmodelled"
       | none => "bad-args"
     | _ => "bad-args"),
   ("pretty.line", fun a => match a with     -- expandable ; check_length(max) ; str
     | [l, mx] => match decLine l with
       | some l =>
-        if !isNat mx then "unmodelled" else
+        if !isInt mx then "bad-args" else
         encBool l.expandable ++ ";" ++
-          (match l.node with | some n => encBool (l.checkLength cw n (decNat mx)) | none => "err:AssertionError")
+          (match l.node with | some n => encBool (l.checkLength cw n (decInt mx)) | none => "err:AssertionError")
           ++ ";" ++ encStr l.str
       | none => "bad-args"
     | _ => "bad-args"),
   ("pretty.expand", fun a => match a with
     | [ds, l, ind] => match decLine l with
       | some l =>
-        if !isNat ind then "unmodelled" else
+        if !isInt ind then "bad-args" else
         match l.node with
-        | some n => if n.isContainer && !n.children.isEmpty then encLines (l.expand ⟨decBool ds, true⟩ n (decNat ind)) else "err:AssertionError"
+        | some n => if n.isContainer && !n.children.isEmpty then encLines (l.expand (mkVariant ds "1" "1") n (decInt ind)) else "err:AssertionError"
         | none => "err:AssertionError"
       | none => "bad-args"
     | _ => "bad-args"),
   ("pretty.render", fun a => match a with
     | [ds, n, w, ind, ea] => match decNode n with
       | some n =>
-        if !isNat w || !isNat ind then "unmodelled"
-        else encStr (render cw ⟨decBool ds, true⟩ n (decNat w) (decNat ind) (decBool ea))
+        if !isInt w || !isInt ind then "bad-args"
+        else encStr (render cw (mkVariant ds "1" "1") n (decInt w) (decInt ind) (decBool ea))
       | none => "bad-args"
     | _ => "bad-args"),
   ("pretty.traverse", fun a => match a with
-    | [al, heap, root, ml, ms, reprs] =>
-      withHeap "1" al heap root ml ms reprs fun cfg h r =>
-        match traverse cfg h r with
-        | some n => encNode n
-        | none => "none"
+    | [ds, al, heap, root, ml, ms, reprs] =>
+      withHeap heap root ml ms reprs fun py h r =>
+        match traverseAny py (mkVariant ds al "1") (decOptInt ml) (decOptInt ms) h r with
+        | .ok (some n) => encNodeMasked (!(decBool ds)) n
+        | .ok none => "none"
+        | .error _ => "err:ValueError"
     | _ => "bad-args"),
   ("pretty.pretty_repr", fun a => match a with
     | [ds, al, heap, root, ml, ms, reprs, w, ind, ea] =>
-      if !isNat w || !isNat ind then "unmodelled" else
-      withHeap ds al heap root ml ms reprs fun cfg h r =>
-        match prettyRepr cw cfg h r (decNat w) (decNat ind) (decBool ea) with
-        | some s => encStr s
-        | none => "none"
+      if !isInt w || !isInt ind then "bad-args" else
+      withHeap heap root ml ms reprs fun py h r =>
+        match prettyReprAny cw py (mkVariant ds al "1") (decOptInt ml) (decOptInt ms) h r (decInt w) (decInt ind) (decBool ea) with
+        | .ok (some s) => encStr s
+        | .ok none => "none"
+        | .error _ => "err:ValueError"
+    | _ => "bad-args"),
+  ("pretty.measure", fun a => match a with   -- Pretty.__rich_measure__(console, max_width)
+    | [ds, al, mn, heap, root, ml, ms, reprs, w, ind, ea] =>
+      if !isInt w || !isInt ind then "bad-args" else
+      withHeap heap root ml ms reprs fun py h r =>
+        let v := mkVariant ds al mn
+        match traverseAny py v (decOptInt ml) (decOptInt ms) h r with
+        | .ok (some n) =>
+          (match prettyMeasure cw v n (decInt w) (decInt ind) (decBool ea) with
+            | .ok m => toString m
+            | .error _ => "err:ValueError")
+        | .ok none => "none"
+        | .error _ => "err:ValueError"
+    | _ => "bad-args"),
+  ("pretty.console", fun a => match a with   -- Pretty.__rich_console__(console, options)
+    | [ds, al, heap, root, ml, ms, reprs, ind, pj, po, pnw, guides, ea, margin, insertLine, cw_, cj, co, cnw, ascii] =>
+      if !isInt cw_ || !isInt ind || !isInt margin then "bad-args" else
+      withHeap heap root ml ms reprs fun py h r =>
+        let v := mkVariant ds al "1"
+        match traverseAny py v (decOptInt ml) (decOptInt ms) h r with
+        | .ok (some n) =>
+          let p : PrettyOpts := ⟨decInt ind, decOptStr pj, decOptStr po, decOptBool pnw, decBool guides, decBool ea, decInt margin, decBool insertLine⟩
+          let o : ConsoleOpts := ⟨decInt cw_, decOptStr cj, decOptStr co, decOptBool cnw, decBool ascii⟩
+          let out := prettyConsole cw v n p o
+          ";".intercalate [encBool out.blankFirst, encStr out.text, encOptStr out.justify, encOptStr out.overflow,
+            encBool out.noWrap, (match out.guides with | some k => toString k | none => "N")]
+        | .ok none => "none"
+        | .error _ => "err:ValueError"
     | _ => "bad-args")
 ]
 
